@@ -14,19 +14,36 @@ from .common import Publish, hides, notify_points, outer_site, path_text, publis
 from .wk import _value_from_body
 
 
-def _is_processed_test(ctx: Ctx, ev: Ev, K) -> bool:
-    """Branch whose test reads `processed_nodes` membership of K."""
-    test = ev.info.get('test')
-    if ev.kind != 'branch' or test is None:
-        return False
-    t = sym.term(ctx.p, test, ev.inst)
-    for s in sym.subterms(t):
-        if isinstance(s, tuple) and s and s[0] == 'call' and len(s) > 2 and s[2]:
-            recv = s[2][0]
-            if isinstance(recv, tuple) and recv and recv[0] == 'attr' and recv[2] == 'processed_nodes':
-                if len(s[2]) > 1 and s[2][1] == K:
-                    return True
+def _is_membership(t, K) -> bool:
+    """t is the term of a `processed_nodes` membership read of K."""
+    if isinstance(t, tuple) and t and t[0] == 'call' and len(t) > 2 and t[2]:
+        recv = t[2][0]
+        if isinstance(recv, tuple) and recv and recv[0] == 'attr' and recv[2] == 'processed_nodes':
+            return len(t[2]) > 1 and t[2][1] == K
     return False
+
+
+def _implies_unprocessed(t, pol: bool, K) -> bool:
+    """The outcome `pol` of the test with term `t` holds only if K is *not* marked as processed."""
+    if not isinstance(t, tuple) or not t:
+        return False
+    if t[0] == 'not':
+        return _implies_unprocessed(t[1], not pol, K)
+    if t[0] in ('and', 'or'):
+        every = (t[0] == 'or') == pol         # or-true / and-false: every operand must imply it
+        vals = [_implies_unprocessed(x, pol, K) for x in t[1]]
+        return all(vals) if every else any(vals)
+    if t[0] == 'call' and t[1] == 'ext:builtins.bool' and t[2]:
+        return _implies_unprocessed(t[2][0], pol, K)
+    if _is_membership(t, K):
+        return not pol
+    return False
+
+
+def _negative_processed_test(ctx: Ctx, prev: Optional[Ev], lab, K) -> bool:
+    if prev is None or prev.kind != 'branch' or lab not in ('T', 'F') or prev.info.get('test') is None:
+        return False
+    return _implies_unprocessed(sym.term(ctx.p, prev.info['test'], prev.inst), lab == 'T', K)
 
 
 def _marks(ctx: Ctx, g: Graph) -> List[Publish]:
@@ -46,11 +63,7 @@ def rule_test_and_set(ctx: Ctx, out: Collector) -> None:
 
             def estep(prev: Optional[Ev], lab, ev: Ev, state, facts, K=K):
                 # state 1: a negative test of K has been seen and nothing was awaited since
-                if prev is not None and lab == 'F' and _is_processed_test(ctx, prev, K):
-                    state = 1
-                elif prev is not None and lab == 'T' and prev.kind == 'branch' and prev.info.get('test') is not None \
-                        and isinstance(prev.info['test'], ast.UnaryOp) and isinstance(prev.info['test'].op, ast.Not) \
-                        and _is_processed_test(ctx, prev, K):
+                if _negative_processed_test(ctx, prev, lab, K):
                     state = 1
                 if ev.kind == 'await' or (ev.kind == 'enter' and ev.info.get('is_async')):
                     state = 0
